@@ -1,5 +1,8 @@
 SPECIFICATION HSpec
 CONSTANTS
+  Creations = {1}
+  MaxSet = 0
+  CreationRewinds = FALSE
   Threads = {1, 2}
   MaxId = 3
   SerialMod = 4
